@@ -6,6 +6,7 @@ import (
 	"time"
 
 	"verif/internal/hz"
+	"verif/internal/memnet"
 	"verif/internal/rt"
 	"verif/internal/wire"
 )
@@ -111,14 +112,14 @@ func c09World(t *testing.T, p c09Params) rt.Result {
 		writesBefore := rc.Pair.Writes(0)
 		switch p.Stim {
 		case "FIN":
-			rc.Pair.WriteAfterPeerCloseOK = true
+			rc.Pair.Configure(func(pp *memnet.Pair) { pp.WriteAfterPeerCloseOK = true })
 			rc.Close()
 		case "RST":
 			rc.Reset()
 		default:
 			rc.W.Log.Add("tx", ps.Addr.String(), rc.ID, p.Stim, fmt.Sprintf("pipelined=%v", pipe))
 			if pipe {
-				rc.Pair.WriteAfterPeerCloseOK = true
+				rc.Pair.Configure(func(pp *memnet.Pair) { pp.WriteAfterPeerCloseOK = true })
 				rc.Send(append(pipePrefix, stim...))
 				rc.Close()
 			} else {
